@@ -69,7 +69,10 @@ func facts() map[string]any {
 		m := buildCalcMsg(base, []rrItem{{kind: 'p', ttl: 3600}}, []rrItem{{kind: 's', ttl: 3600, a: 60}}, nil)
 		return dnsutil.CalculateCacheTTL(m, dnsutil.TypeSuccess)
 	})
+	bigCut, bigProof := histBigMax()
 	return map[string]any{
+		"hist_cut_max_big_ns":   bigCut,
+		"hist_proof_max_big_ns": bigProof,
 		"minCacheTTL_ns":        int64(dnsutil.MinCacheTTL),
 		"maxCacheTTL_ns":        int64(dnsutil.MaxCacheTTL),
 		"pkg_minTTL_ns":         int64(pmin),
@@ -95,6 +98,13 @@ func histCutMax() int64 {
 	c := cache.New(&config.Config{CacheSize: 1024, Expire: histExpire})
 	defer c.Stop()
 	return int64(cache.VerifC04CutMaxTTL(c))
+}
+
+// the same ceilings under `expire` = one week (above the 24 h cap)
+func histBigMax() (int64, int64) {
+	c := cache.New(&config.Config{CacheSize: 1024, Expire: histExpireBig})
+	defer c.Stop()
+	return int64(cache.VerifC04CutMaxTTL(c)), int64(cache.VerifC04ProofMaxTTL(c))
 }
 
 func histProofMax() int64 {
